@@ -387,15 +387,15 @@ Qed.
 
 (* ----------------------------------------------------------------------------- Display impls *)
 
-Definition plain_text (path : str) (k : pkind) (p : npos) (txt : str) : str :=
-  cite path (np_row p) (np_col p) ++ [32] ++ kind_text k ++
+Definition plain_text (kt : pkind -> str) (path : str) (k : pkind) (p : npos) (txt : str) : str :=
+  cite path (np_row p) (np_col p) ++ [32] ++ kt k ++
   (if range_is_empty p then [10] else [58; 32] ++ until_nl txt).
 
-Lemma display_plain_lemma : forall path src k p, wf_pos src p = true ->
+Lemma display_plain_lemma : forall kt path src k p, wf_pos src p = true ->
   exists txt, (range_is_empty p = false -> slice_bytes 1 src (np_start p) (np_end p) = Ok txt) /\
-              display_plain path src k p = Ok (plain_text path k p txt).
+              display_plain kt path src k p = Ok (plain_text kt path k p txt).
 Proof.
-  intros path src k p Hwf. unfold display_plain, plain_text.
+  intros kt path src k p Hwf. unfold display_plain, plain_text.
   destruct (range_is_empty p) eqn:Em.
   - exists []. split; [discriminate|]. rewrite <- !app_assoc. reflexivity.
   - destruct (wf_slices src p Hwf) as [x [txt [rest2 [_ [S1 [_ S2]]]]]].
@@ -403,10 +403,10 @@ Proof.
     rewrite S1. cbn [obind]. rewrite S2. cbn [obind]. rewrite <- !app_assoc. reflexivity.
 Qed.
 
-Lemma display_pretty_lemma : forall path src k p, wf_pos src p = true ->
-  exists s, display_pretty path src k p = Ok s.
+Lemma display_pretty_lemma : forall kt path src k p, wf_pos src p = true ->
+  exists s, display_pretty kt path src k p = Ok s.
 Proof.
-  intros path src k p Hwf. unfold display_pretty.
+  intros kt path src k p Hwf. unfold display_pretty.
   destruct (wf_slices src p Hwf) as [x [txt [rest2 [_ [_ [S3 _]]]]]].
   rewrite S3. cbn [obind]. eauto.
 Qed.
@@ -424,10 +424,10 @@ Proof.
   - cbn [contains]. rewrite IH. apply orb_true_r.
 Qed.
 
-Lemma display_plain_cites_lemma : forall path src k p s,
-  display_plain path src k p = Ok s -> is_prefix (cite path (np_row p) (np_col p)) s = true.
+Lemma display_plain_cites_lemma : forall kt path src k p s,
+  display_plain kt path src k p = Ok s -> is_prefix (cite path (np_row p) (np_col p)) s = true.
 Proof.
-  intros path src k p s. unfold display_plain.
+  intros kt path src k p s. unfold display_plain.
   destruct (range_is_empty p).
   - intros E. injection E as <-. rewrite <- !app_assoc. apply is_prefix_app.
   - destruct (slice_bytes 1 src (np_start p) (np_end p)) as [txt| | |]; cbn [obind]; try discriminate.
@@ -435,10 +435,10 @@ Proof.
     intros E. injection E as <-. rewrite <- !app_assoc. apply is_prefix_app.
 Qed.
 
-Lemma display_pretty_cites_lemma : forall path src k p s,
-  display_pretty path src k p = Ok s -> contains (cite path (np_row p) (np_col p)) s = true.
+Lemma display_pretty_cites_lemma : forall kt path src k p s,
+  display_pretty kt path src k p = Ok s -> contains (cite path (np_row p) (np_col p)) s = true.
 Proof.
-  intros path src k p s. unfold display_pretty.
+  intros kt path src k p s. unfold display_pretty.
   destruct (slice_bytes 3 src (np_start p) (np_end p)) as [txt| | |]; cbn [obind]; try discriminate.
   intros E. injection E as <-. unfold excerpt.
   destruct (nth_error (lines src) (N.to_nat (np_row p)));
@@ -446,12 +446,12 @@ Proof.
 Qed.
 
 (* a zero-width node (every MISSING node): empty slice, excerpt with the empty column range col..col *)
-Lemma display_pretty_zero_width_lemma : forall path src k p,
+Lemma display_pretty_zero_width_lemma : forall kt path src k p,
   wf_pos src p = true -> np_start p = np_end p ->
-  display_pretty path src k p =
-    Ok ((kind_text k ++ [10]) ++ excerpt path src (np_row p) (np_col p) (np_col p)).
+  display_pretty kt path src k p =
+    Ok ((kt k ++ [10]) ++ excerpt path src (np_row p) (np_col p) (np_col p)).
 Proof.
-  intros path src k p Hwf E. unfold wf_pos, is_boundary in Hwf.
+  intros kt path src k p Hwf E. unfold wf_pos, is_boundary in Hwf.
   apply andb_true_iff in Hwf. destruct Hwf as [Hwf _]. apply andb_true_iff in Hwf. destruct Hwf as [_ Ha].
   unfold display_pretty, slice_bytes. rewrite <- E.
   destruct (N.ltb_spec (np_start p) (np_start p)); [lia|].
